@@ -40,6 +40,7 @@ def label_text(host, port):
 def setup_net(case):
     net = fakenet.FakeNet()
     srv = fakenet.Server({'hostkeys': {'ssh-ed25519': {'t': 'ed25519'}}})
+    srv1 = fakenet.peer_from_spec({'proto': 1})       # a protocol-1 server (reached through the version-mismatch fallback)
     targets = case['targets']
     for t in targets:
         host, port = t['host'], t['eport']
@@ -53,7 +54,7 @@ def setup_net(case):
             net.resolve[host] = ips
         for af, ip in ips:
             if 1 <= port <= 65535:
-                net.servers[(ip, port)] = srv
+                net.servers[(ip, port)] = srv1 if t.get('ssh1') else srv
     return net, srv
 
 
@@ -81,7 +82,12 @@ def eval_case(case):
             if case.get('noise'):
                 lines.append(['', '   ', '\t'][i % 3])
             lines.append((('  ' if case.get('noise') else '') + t['text'] + ('  ' if case.get('noise') and i % 2 else '')))
-        path = drive.tmpfile('\n'.join(lines) + ('\n' if not case.get('noise') else '\n\n  \n'))
+        text = '\n'.join(lines) + ('\n' if not case.get('noise') else '\n\n  \n')
+        if case.get('noise') and len(targets) % 2 == 0:
+            text = text.replace('\n', '\r\n')          # a targets file written on Windows
+        if case.get('noise') and case['p_opt'] == 8022:
+            text = text.rstrip('\r\n ')                 # no newline at the end of the last line
+        path = drive.tmpfile(text)
         argv += ['-T', path, '--threads', '1']
     else:
         argv += [targets[0]['text']]
@@ -91,7 +97,7 @@ def eval_case(case):
         if path:
             os.unlink(path)
     invalid = [t for t in targets if not (1 <= t['eport'] <= 65535)] or (case['p_opt'] is not None and not (1 <= case['p_opt'] <= 65535))
-    cl = ['where:' + case['where'], 'fam:' + (fam or 'none'), 'json' if case['json'] else 'text', 'policy-audit' if case.get('policy') else 'standard-audit'] + ['spell:' + t['spelling'] for t in targets[:1]] + (['invalid-port'] if invalid else []) + (['-p'] if case['p_opt'] is not None else [])
+    cl = (['has-ssh1-target'] if any(t.get('ssh1') for t in targets) else []) + ['where:' + case['where'], 'fam:' + (fam or 'none'), 'json' if case['json'] else 'text', 'policy-audit' if case.get('policy') else 'standard-audit'] + ['spell:' + t['spelling'] for t in targets[:1]] + (['invalid-port'] if invalid else []) + (['-p'] if case['p_opt'] is not None else [])
     v6 = any(':' in t['host'] for t in targets)
     nt = v6 or bool(fam) or (case['where'] == 'file' and case['p_opt'] is not None) or bool(invalid)
     if r.hang:
@@ -236,6 +242,8 @@ def strat_case():
                 x = dict(x, resolver=prev[0]['resolver'])
             seen.add((x['host'], eport))
             out.append(dict(x, eport=eport, text=spell(x['host'], x['port'], x['spelling'])))
+        if where == 'file' and not pol and n_extra and (len(out[0]['host']) + out[0]['port']) % 3 == 0:
+            out[0]['ssh1'] = True             # one of the listed servers speaks protocol 1 only
         return {'targets': out, 'where': where, 'p_opt': p_opt, 'fam': fam, 'json': js, 'noise': noise and where == 'file', 'rate': rate and where == 'cli' and not js and not pol, 'policy': pol}
     return st.tuples(st.lists(tgt, min_size=3, max_size=3), st.sampled_from(['cli', 'cli', 'file']), st.one_of(st.none(), st.none(), st.sampled_from([22, 2222, 1, 65535, 8022])), st.sampled_from(['', '', '', '-4', '-6', '-46', '-64', '-4', '-6', '-46', '-64', '-44', '-66', '-4 -4', '-6 -6', '-4 -6', '-6 -4', '-4 -6 -4', '-6 -4 -6', '-446', '-664']),
                      st.booleans(), st.booleans(), st.integers(0, 2), st.sampled_from([False, False, False, True]), st.sampled_from([False, False, True])).map(build)
